@@ -315,6 +315,23 @@ class Built:
         self.logs: List[List[str]] = []  # producer logs
 
 
+_EXC_BASES = {"TypeError": TypeError, "AttributeError": AttributeError, "KeyError": KeyError, "ValueError": ValueError, "OSError": OSError,
+              "RuntimeError": RuntimeError, "LookupError": LookupError, "StopIteration": None}
+_EXC_CACHE: Dict[str, type] = {}
+
+
+def _producer_exc(a: Dict[str, Any], msg: str) -> BaseException:
+    """The failure of a raw application: ProducerError, or - with a["exc"] - a class that is ALSO the named built-in
+    exception (application code fails with TypeError, KeyError ... as often as with its own classes)."""
+    name = a.get("exc")
+    base = _EXC_BASES.get(name) if name else None
+    if base is None:
+        return ProducerError(msg)
+    if name not in _EXC_CACHE:
+        _EXC_CACHE[name] = type("Producer" + name, (ProducerError, base), {})
+    return _EXC_CACHE[name](msg)
+
+
 def _raw_wsgi(a: Dict[str, Any], built: Built) -> Any:
     status, headers, chunks = a["status"], [tuple(h) for h in a["headers"]], list(a["chunks"])
     returns, raises = a.get("returns", "list"), a.get("raises")
@@ -322,10 +339,10 @@ def _raw_wsgi(a: Dict[str, Any], built: Built) -> Any:
     def app(environ: Any, start_response: Any) -> Any:
         built.calls.append(("raw", a.get("label")))
         if raises == "before":
-            raise ProducerError("raw app failed before start")
+            raise _producer_exc(a, "raw app failed before start")
         start_response(status, headers)
         if raises == "after":
-            raise ProducerError("raw app failed after start")
+            raise _producer_exc(a, "raw app failed after start")
         if returns == "list":
             return list(chunks)
         if returns == "tuple":
@@ -336,7 +353,7 @@ def _raw_wsgi(a: Dict[str, Any], built: Built) -> Any:
         def gen():
             for i, c in enumerate(chunks):
                 if raises == "mid" and i == max(1, len(chunks) // 2):
-                    raise ProducerError("raw app failed mid-body")
+                    raise _producer_exc(a, "raw app failed mid-body")
                 yield c
 
         return gen()
@@ -350,7 +367,7 @@ def _raw_wsgi(a: Dict[str, Any], built: Built) -> Any:
             built.calls.append(("raw", a.get("label")))
             start_response("200 OK", first_headers)
             try:
-                raise ProducerError("failure before the first body chunk")
+                raise _producer_exc(a, "failure before the first body chunk")
             except ProducerError:
                 import sys
 
@@ -379,7 +396,7 @@ def _raw_asgi(a: Dict[str, Any], built: Built) -> Any:
     async def app(scope: Any, receive: Any, send: Any) -> None:
         built.calls.append(("raw", a.get("label")))
         if raises == "before":
-            raise ProducerError("raw app failed before start")
+            raise _producer_exc(a, "raw app failed before start")
         # the ASGI specification types `headers` as an iterable: hand over a list, a tuple, a one-shot
         # iterator or a generator depending on the variant
         hv: Any = headers
@@ -391,13 +408,13 @@ def _raw_asgi(a: Dict[str, Any], built: Built) -> Any:
             hv = (h for h in list(headers))
         await send({"type": "http.response.start", "status": code, "headers": hv})
         if raises == "after":
-            raise ProducerError("raw app failed after start")
+            raise _producer_exc(a, "raw app failed after start")
         if not chunks:
             await send({"type": "http.response.body", "body": b"", "more_body": False})
             return
         for i, c in enumerate(chunks):
             if raises == "mid" and i == max(1, len(chunks) // 2):
-                raise ProducerError("raw app failed mid-body")
+                raise _producer_exc(a, "raw app failed mid-body")
             msg = {"type": "http.response.body", "body": c, "more_body": i < len(chunks) - 1}
             if a.get("returns") in ("restart", "tuple") and i == len(chunks) - 1:
                 del msg["more_body"]  # optional key, defaults to False
